@@ -78,6 +78,9 @@ def generate(name, classes, bound, coverage=False, invariants=True):
         c = json.loads(raw)
         cases.append((json.dumps(c["key"]), c["msg"]))
     cases.sort(key=lambda c: (c[0], json.dumps(c[1], sort_keys=True)))
+    del seen
+    res["lines"] = {}          # memory: the exported text is not needed any more
+    res["text"] = ""
     return {"pres": pres, "cases": cases, "stats": res["stats"], "bound": b, "classes": classes}
 
 
@@ -324,14 +327,18 @@ def generate_life(name, mode, objs, depth, seed, num=None, cap=None, theme="all"
         res = tlc.run("MosLife", cfg, "life-" + name, workers=8, timeout=3000,
                       simulate="num=%d" % num, extra=["-depth", str(depth + 3), "-seed", str(seed % (2 ** 31))])
     tlc.require_ok(res, "MosLife " + name)
+    # memory: the exported lines are kept as text, de-duplicated and sampled as text; only what is replayed is parsed
+    raws = sorted(set(res["lines"].get("BEH", [])))
+    res["lines"] = {}
+    res["text"] = ""
+    if cap and len(raws) > cap:
+        raws = random.Random(seed).sample(raws, cap)
     seen = {}
-    for raw in res["lines"].get("BEH", []):
+    for raw in raws:
         b = json.loads(raw)
         key = json.dumps(b["steps"], sort_keys=True)
         seen.setdefault(key, b)
     behs = [seen[k] for k in sorted(seen)]
-    if cap and len(behs) > cap:
-        behs = random.Random(seed).sample(behs, cap)
     return behs, res["stats"]
 
 
